@@ -407,28 +407,31 @@ def genIndexName (keys : List (String × Val)) : String :=
     | .str s => s
     | _ => "?")))
 
-/-- tuple of key values used by the creation pre-check (sparse: missing keys are skipped) -/
-def indexTuple (keys : List (String × Val)) (sparse : Bool) (d : Val) : R (List Val) :=
-  keys.foldlM (fun acc kv =>
+/-- tuple of key values used by the creation pre-check (null for a missing field) and the
+    number of missing fields -/
+def indexTuple (keys : List (String × Val)) (d : Val) : R (List Val × Nat) :=
+  keys.foldlM (fun (acc : List Val × Nat) kv =>
     match getByDot d kv.1 with
-    | .ok v => .ok (acc ++ [v])
-    | .error .keyErr => .ok (if sparse then acc else acc ++ [.null])
-    | .error e => .error e) []
+    | .ok v => .ok (acc.1 ++ [v], acc.2)
+    | .error .keyErr => .ok (acc.1 ++ [.null], acc.2 + 1)
+    | .error e => .error e) ([], 0)
 
-def tupleUnhashable (t : List Val) : Bool := t.any (fun v => v.isDoc || v.isArr)
-
-/-- the uniqueness pre-check of `create_index` over the existing documents -/
-def precheckUnique (keys : List (String × Val)) (sparse : Bool) :
+/-- the uniqueness pre-check of `create_index` over the existing documents: a document the
+    index does not cover (sparse: no indexed field present; partial: filter not matched) is
+    skipped, duplicates among the others raise DuplicateKeyError -/
+def precheckUnique (keys : List (String × Val)) (sparse : Bool) (pfe : Option Val) :
     List (Val × Val) → List (List Val) → R Unit
   | [], _ => .ok ()
   | (_, d) :: rest, seen => do
-    let t ← indexTuple keys sparse d
-    if sparse && t.isEmpty then precheckUnique keys sparse rest seen
-    else if seen.any (fun s => pyEq (.arr s) (.arr t)) then
-      -- hashable duplicates raise DuplicateKeyError through `generator.throw`; for unhashable
-      -- ones the three-argument `throw(exc, None, err)` itself fails with TypeError
-      (if tupleUnhashable t then .error .typeErr else .error .dupKey)
-    else precheckUnique keys sparse rest (seen ++ [t])
+    let (t, missing) ← indexTuple keys d
+    if sparse && missing == t.length then precheckUnique keys sparse pfe rest seen
+    else do
+      let covered ← (match pfe with
+        | some f => filterApplies f d
+        | none => pure true)
+      if !covered then precheckUnique keys sparse pfe rest seen
+      else if seen.any (fun s => pyEq (.arr s) (.arr t)) then .error .dupKey
+      else precheckUnique keys sparse pfe rest (seen ++ [t])
 
 def createIndexColl (now : Int) (c : Coll) (ix : Index) : Coll × R String :=
   match c.indexes.find? (fun i => i.name == ix.name) with
@@ -438,7 +441,7 @@ where
   go : Coll × R String :=
     let pre : R Coll := if ix.unique then do
         let c1 ← expire now c
-        precheckUnique ix.keys ix.sparse c1.docs []
+        precheckUnique ix.keys ix.sparse ix.partialFilter c1.docs []
         pure c1
       else pure c
     match pre with
